@@ -445,6 +445,9 @@ class Node(object):
             ions = sorted(el.ions)
             for q in ions[:1] + ions[-1:]:
                 g(keys, "%s{%d}.mass" % (s, q), lambda: el.ion[q].mass)
+        for n in ("mass_units", "abundance_units"):
+            g(keys, "Fe." + n, lambda: getattr(t.Fe, n))
+            g(keys, "Fe[56]." + n, lambda: getattr(t.Fe[56], n))
 
     def dg_density(self, tbl, t, keys):
         g = self._get
@@ -457,6 +460,9 @@ class Node(object):
             isos = sorted(el.isotopes)
             for A in isos[:1] + isos[-1:]:
                 g(keys, "%s[%d].density" % (s, A), lambda: el[A].density)
+        for n in ("density_units", "interatomic_distance_units", "number_density_units"):
+            g(keys, "Fe." + n, lambda: getattr(t.Fe, n))
+            g(keys, "Fe{2}." + n, lambda: getattr(t.Fe.ion[2], n))
 
     def dg_covalent_radius(self, tbl, t, keys):
         g = self._get
